@@ -384,6 +384,11 @@ func (sc *C10Scenario) Execute(t *testing.T) *core.Outcome {
 						np = "next-limited"
 					}
 					m.note(next, pos+len(evs), np)
+					// the start-of-log offset is a valid next offset only when nothing lies before the resume point:
+					// a reader that polls at the tail must not be thrown back to the beginning
+					if next == eventbus.OffsetOldest && pos+len(evs) > 0 {
+						viol("next-offset-regressed", "next-offset", "Read(%q, %d) from log position %d returned %d events and the start-of-log offset as next offset: resuming from it repeats the first %d events", from, op.Limit, pos, len(evs), pos+len(evs))
+					}
 				}
 			case "stream":
 				if streamer == nil {
